@@ -521,6 +521,16 @@ def run_impl(case):
         links = model.links()
         pools = model.pools()
         live = set(i for p in pools for i in p)
+        # the pools by the statement: the live instances of each class (from the history, not from the implementation),
+        # also as MetaModel.select_many answers them
+        want_pools = [[i for i in range(len(orc.kinds)) if orc.kinds[i] == k and orc.live[i]] for k in range(len(schema['classes']))]
+        # (the ORDER of a pool is C09's subject, not this property's: compared as sets, each live instance once)
+        if str(got) == want and [sorted(p) for p in pools] != want_pools:
+            fail('pool-differs', 'the instance pools are %r, the live instances are %r' % (pools, want_pools), step)
+        if step == len(case['ops']) - 1 or op[0] == 'delete':
+            sel = [sorted(model.idx(i) for i in model.m.select_many(c['name'])) for c in schema['classes']]
+            if sel != [sorted(p) for p in pools]:
+                fail('pool-differs', 'select_many gives %r, the pools hold %r' % (sel, pools), step)
         for ai, (src, tgt) in enumerate(links):
             a = schema['assocs'][ai]
             s_pairs = set((e[0], p) for e in src for p in e[1:])
